@@ -195,6 +195,23 @@ def widen(rnd, ahb, pool):
     return ahb
 
 
+def deepen(rnd, ahb, pool):
+    """a chain of 8-40 nested segment groups below one group (the quantifier says any depth)"""
+    groups = [n for n, _ in walk(ahb) if n["t"] == "g"]
+    if not groups:
+        return ahb
+    parent = rnd.choice(groups)
+    for level in range(rnd.randint(8, 40)):
+        expression = rnd.choice(["X", "Muss", "Kann", "X", "Muss", rnd.choice(pool)])
+        child = {"t": "g", "d": f"Gd{level}", "e": expression, "groups": [], "segments": []}
+        if rnd.random() < 0.3:
+            child["segments"].append({"t": "s", "d": f"Sd{level}", "e": rnd.choice(["X", "Muss", rnd.choice(pool)]),
+                                      "des": [{"t": "f", "d": f"Fd{level}", "e": "X", "input": rnd.choice([None, "d"])}]})
+        parent["groups"].append(child)
+        parent = child
+    return ahb
+
+
 def summarise_validation(scenario):
     op = scenario["requests"][0]["op"]
     out = {
